@@ -246,7 +246,8 @@ def gen_pairs(max_len):
                         i += 1
                         yield {'span': desc, 'start': s, 'end': e, 'lags': lags, 'leads': leads, 'nvars': 1, 'presolved': i % 2 == 0,
                                'script': script_for(n, [[1], [1, 0], [1, 0, 2], [3], [3, 0], [4, 2, 3]][i % 6],
-                                                    [i % max(n, 1), 1, ['raise', 'KeyError']] if i % 5 == 0 and n else None),
+                                                    [i % max(n, 1), 1, ['raise', ['KeyError', 'RuntimeError', 'UserDefined', 'AssertionError'][(i // 5) % 4]]]
+                                                    if i % 5 == 0 and n else None),
                                'opts': [{'max_iter': 3, 'failures': 'ignore', 'tol': 0.5},
                                         {'max_iter': 5, 'failures': 'ignore'},
                                         {'max_iter': 4, 'min_iter': 4, 'failures': 'ignore', 'tol': 0.5}][i % 3]}
@@ -256,8 +257,8 @@ def gen_pairs(max_len):
 def strategy():
     from hypothesis import strategies as st
     descs = spans.catalogue(5, min_len=1) + spans.catalogue_long()
-    faults = st.sampled_from([['set', 'nan'], ['set', 'inf'], 'warn', ['warn', 'UserWarning', 'inf'], ['warn', 'FutureWarning', 1.0], ['raise', 'ZeroDivisionError'], ['raise', 'KeyError'],
-                              ['move', 100.0]])
+    faults = st.sampled_from([['set', 'nan'], ['set', 'inf'], 'warn', ['warn', 'UserWarning', 'inf'], ['warn', 'FutureWarning', 1.0], ['raise', 'ZeroDivisionError'], ['raise', 'KeyError'], ['raise', 'RuntimeError'],
+                              ['raise', 'AssertionError'], ['raise', 'UserDefined'], ['raise', 'OSError'], ['move', 100.0]])
 
     @st.composite
     def cases(draw):
